@@ -176,6 +176,41 @@ Proof.
   f_equal. apply (spec_interpolate_inverse O L); assumption.
 Qed.
 
+(* the other direction, for ARBITRARY values v: the interpolant evaluates back to v — together with
+   interpolate_evaluate this says interpolate_poly returns THE polynomial (of < n coefficients) through the values *)
+Lemma peval_scale : forall l c x, peval (map (fun y => y *f c) l) x = peval l x *f c.
+Proof.
+  induction l as [|a t IH]; intros; cbn [map FFT.peval]; [ring|]. rewrite IH. ring.
+Qed.
+
+Theorem evaluate_interpolate tw itw K w winv v :
+  length v = 2 ^ S K -> length tw = 2 ^ K -> length itw = 2 ^ K -> S K <= two_adicity ->
+  root_cond O (S K) w -> w *f winv = f1 -> tw_ok O tw (S K) w -> tw_ok O itw (S K) winv ->
+  two_pow_f O (S K) *f n_inv (S K) = f1 ->
+  exists c, interpolate_poly O two_adicity v itw = Some c /\ length c = 2 ^ S K /\
+            evaluate_poly O two_adicity c tw = Some v.
+Proof.
+  intros Hl Hlt Hli Had Hw Hinv Ht Hti Hn.
+  assert (Hwi : root_cond O (S K) winv).
+  { cbn [root_cond] in *.
+    assert (fpow w (2 ^ K) *f fpow winv (2 ^ K) = f1)
+      by (rewrite <- (fpow_mul_base O L), Hinv; apply (fpow_one O L)).
+    rewrite Hw in H. transitivity (-f (-f f1 *f fpow winv (2 ^ K))); [ring | rewrite H; reflexivity]. }
+  rewrite (interpolate_poly_correct itw K winv v Hl Hli Had Hwi Hti).
+  eexists; split; [reflexivity|].
+  assert (Hlc : length (spec_interpolate O (S K) winv (n_inv (S K)) v) = 2 ^ S K).
+  { unfold spec_interpolate. rewrite map_length. apply (fft_rec_length O L). exact Hl. }
+  split; [exact Hlc|].
+  rewrite (evaluate_poly_correct O L two_adicity tw K w _ Hlc Hlt Had Hw Ht). f_equal.
+  apply nth_ext with (d := fz) (d' := fz); [rewrite map_length, seq_length; auto|].
+  rewrite map_length, seq_length. intros i Hi. rewrite map_seq_nth by exact Hi.
+  unfold spec_interpolate. rewrite peval_scale.
+  assert (Hinv' : winv *f w = f1) by (rewrite (fl_mul_comm O L); exact Hinv).
+  rewrite (idft_coeff O L (S K) winv w v i Hl Hwi Hinv' Hi).
+  transitivity ((two_pow_f O (S K) *f n_inv (S K)) *f nth i v fz); [ring | rewrite Hn; ring].
+Qed.
+
+
 Theorem interpolate_poly_with_offset_correct itw K winv offset v :
   length v = 2 ^ S K -> length itw = 2 ^ K -> S K <= two_adicity ->
   root_cond O (S K) winv -> tw_ok O itw (S K) winv -> offset <> fz ->
